@@ -1,26 +1,36 @@
-(* Model of preprocess/warc_parallel_main.cc (C17) as a transition system over
-   whole records.  Readers (one per input) frame records with WARCReader and
-   Produce them into the PCQueue; worker w's input thread Consumes the head of the
-   queue and writes it to its child; the child is the identity (cat); worker w's
-   output thread re-frames the child's output with WARCReader (exact by
-   C17_records_exact) and appends the record to stdout while holding out_mutex_.
-   Environment assumptions (C16 / std::mutex): the queue hands every produced item
-   to exactly one consumer in FIFO order; the mutex makes `*out << record` atomic.
-   A schedule is any list of actions; an action that is not enabled does nothing. *)
-From PP Require Export Base.Bytes.
+(* Model of preprocess/warc_parallel_main.cc (C17) as an executable transition
+   system, one label per thread, one step = the code between two scheduling points.
+
+     reader thread i   ReadInput:       while (reader.Read(str)) queue->ProduceSwap(str);
+     main thread       Run/Join:        join the readers; then Produce one empty string per
+                                        worker (the end markers); then join the workers
+     worker w, input   InputToProcess:  loop { ConsumeSwap(warc); if (warc.empty()) return;
+                                        write warc to the child's stdin }   (returning closes the pipe)
+     worker w, child                    the identity on records (cat); exits at end of input
+     worker w, output  OutputFromProcess: while (reader.Read(str)) { [GZCompress(str, compressed);]
+                                        lock out_mutex; *out << bytes; unlock }
+
+   The queue is util::PCQueue taken at the granularity of whole Produce / Consume calls
+   (their atomicity and FIFO order are C16's theorems).  The ring with its swap semantics
+   is kept exactly: [p_live] are the filled slots from consume_at_ to produce_at_,
+   [p_free] the slots from produce_at_ round to consume_at_ with the strings they still
+   hold.  ProduceSwap exchanges the caller's string with the first free slot, ConsumeSwap
+   exchanges the caller's string with the first filled slot (which becomes the last free
+   one), Produce copies.  Writing to stdout is one step PER BYTE, so holding the mutex is
+   what keeps two records apart.  [p_emitted] is a history variable (never read by a step).
+
+   Two things are regenerated from the source text (Gen/Src_warc.v):
+     wp_join_swaps  Join hands over its markers with ProduceSwap (true) or Produce (false)
+     wp_out_locked  every `*out << ...` of OutputFromProcess happens under a lock_guard
+   Merged steps (both merge a thread-local action into the preceding step): ConsumeSwap
+   with the test for the marker and the write to the child's stdin; Read with ProduceSwap. *)
+From PP Require Export Base.Bytes Base.LTS Gen.Src_warc.
 From Coq Require Export List.
 Import ListNotations.
 
 Definition rec := list Z.
 
-Record pstate := mkp {
-  p_inputs : list (list rec);     (* records each reader has not produced yet *)
-  p_queue : list rec;             (* PCQueue in_ *)
-  p_flight : list (list rec);     (* per worker: written to the child, not yet emitted *)
-  p_out : list rec                (* stdout, in order of emission *)
-}.
-
-Inductive action := ARead (i : nat) | AFeed (w : nat) | AEmit (w : nat).
+Definition is_nil {A} (l : list A) : bool := match l with [] => true | _ => false end.
 
 Fixpoint set_nth {A} (l : list A) (i : nat) (x : A) : list A :=
   match l, i with
@@ -29,37 +39,130 @@ Fixpoint set_nth {A} (l : list A) (i : nat) (x : A) : list A :=
   | y :: r, S j => y :: set_nth r j x
   end.
 
-Definition pstep (s : pstate) (a : action) : pstate :=
-  match a with
-  | ARead i =>
-    match nth i (p_inputs s) [] with
-    | r :: rest => mkp (set_nth (p_inputs s) i rest) (p_queue s ++ [r]) (p_flight s) (p_out s)
-    | [] => s
-    end
-  | AFeed w =>
-    match p_queue s with
-    | r :: q => if Nat.ltb w (length (p_flight s))
-                then mkp (p_inputs s) q (set_nth (p_flight s) w (nth w (p_flight s) [] ++ [r])) (p_out s)
-                else s
-    | [] => s
-    end
-  | AEmit w =>
-    match nth w (p_flight s) [] with
-    | r :: rest => mkp (p_inputs s) (p_queue s) (set_nth (p_flight s) w rest) (p_out s ++ [r])
-    | [] => s
-    end
-  end.
+(* output thread: in reader.Read | has a record, about to lock | holds the mutex, bytes
+   still to write | returned *)
+Inductive ostate := ORead | OLock (r : rec) | OWrite (r : rec) (rest : list Z) | ODone.
 
-Definition prun (s : pstate) (sched : list action) : pstate := fold_left pstep sched s.
+Record worker := mkw {
+  w_in : option rec;      (* input thread: Some warc = running, its local string; None = returned (pipe closed) *)
+  w_pin : list rec;       (* child's stdin: written, not yet processed *)
+  w_cdone : bool;         (* child has exited (its stdout is at end of file once drained) *)
+  w_pout : list rec;      (* child's stdout: produced, not yet read by the output thread *)
+  w_out : ostate }.
 
-Definition pinit (inputs : list (list rec)) (jobs : nat) : pstate := mkp inputs [] (repeat [] jobs) [].
+Record pstate := mkp {
+  p_readers : list (list rec);   (* per reader thread: the records its WARCReader will still return *)
+  p_live : list rec;             (* filled queue slots, oldest first *)
+  p_free : list rec;             (* free queue slots in the order Produce will use them, with their stale strings *)
+  p_markers : nat;               (* Join: end markers still to produce *)
+  p_mstr : rec;                  (* Join: its local std::string str *)
+  p_workers : list worker;
+  p_mutex : bool;                (* out_mutex_ held *)
+  p_stdout : list Z;             (* bytes written to stdout so far *)
+  p_emitted : list rec }.        (* history: records whose writing has begun (mutex taken), in order *)
 
-(* everything is drained: the tool can exit *)
-Definition pdone (s : pstate) : Prop :=
-  Forall (fun l => l = []) (p_inputs s) /\ p_queue s = [] /\ Forall (fun l => l = []) (p_flight s).
+Inductive plabel := LReader (i : nat) | LMain | LIn (w : nat) | LChild (w : nat) | LOut (w : nat).
 
-(* what stdout holds: the records' bytes one after another *)
-Definition pbytes (s : pstate) : list Z := concat (p_out s).
+Section Par.
+  (* the bytes the output thread writes for a record: the record itself, or with -z
+     util::GZCompress of it *)
+  Variable enc : rec -> list Z.
+
+  Definition with_worker (s : pstate) (i : nat) (wk : worker) (mutex : bool) (out : list Z) (em : list rec) : pstate :=
+    mkp (p_readers s) (p_live s) (p_free s) (p_markers s) (p_mstr s) (set_nth (p_workers s) i wk) mutex out em.
+
+  Definition pstep (s : pstate) (l : plabel) : option pstate :=
+    match l with
+    | LReader i =>
+      match nth_error (p_readers s) i with
+      | Some (r :: todo) =>
+        match p_free s with
+        | _ :: fr => Some (mkp (set_nth (p_readers s) i todo) (p_live s ++ [r]) fr (p_markers s) (p_mstr s)
+                               (p_workers s) (p_mutex s) (p_stdout s) (p_emitted s))
+        | [] => None                  (* queue full: blocked in empty_.wait() *)
+        end
+      | _ => None                     (* returned *)
+      end
+    | LMain =>
+      if forallb is_nil (p_readers s) then   (* r.join() for every reader has returned *)
+        match p_markers s, p_free s with
+        | S k, f :: fr => Some (mkp (p_readers s) (p_live s ++ [p_mstr s]) fr k (if wp_join_swaps then f else p_mstr s)
+                                    (p_workers s) (p_mutex s) (p_stdout s) (p_emitted s))
+        | _, _ => None
+        end
+      else None
+    | LIn w =>
+      match nth_error (p_workers s) w with
+      | Some wk =>
+        match w_in wk, p_live s with
+        | Some held, r :: lv =>
+          let wk' := if is_nil r then mkw None (w_pin wk) (w_cdone wk) (w_pout wk) (w_out wk)
+                     else mkw (Some r) (w_pin wk ++ [r]) (w_cdone wk) (w_pout wk) (w_out wk) in
+          Some (mkp (p_readers s) lv (p_free s ++ [held]) (p_markers s) (p_mstr s)
+                    (set_nth (p_workers s) w wk') (p_mutex s) (p_stdout s) (p_emitted s))
+        | _, _ => None                (* returned, or queue empty: blocked in used_.wait() *)
+        end
+      | None => None
+      end
+    | LChild w =>
+      match nth_error (p_workers s) w with
+      | Some wk =>
+        if w_cdone wk then None
+        else
+          match w_pin wk with
+          | r :: rest => Some (with_worker s w (mkw (w_in wk) rest false (w_pout wk ++ [r]) (w_out wk))
+                                           (p_mutex s) (p_stdout s) (p_emitted s))
+          | [] =>
+            match w_in wk with
+            | None => Some (with_worker s w (mkw None [] true (w_pout wk) (w_out wk)) (p_mutex s) (p_stdout s) (p_emitted s))
+            | Some _ => None          (* blocked reading its stdin *)
+            end
+          end
+      | None => None
+      end
+    | LOut w =>
+      match nth_error (p_workers s) w with
+      | Some wk =>
+        match w_out wk with
+        | ORead =>
+          match w_pout wk with
+          | r :: rest => Some (with_worker s w (mkw (w_in wk) (w_pin wk) (w_cdone wk) rest (OLock r))
+                                           (p_mutex s) (p_stdout s) (p_emitted s))
+          | [] => if w_cdone wk
+                  then Some (with_worker s w (mkw (w_in wk) (w_pin wk) (w_cdone wk) [] ODone) (p_mutex s) (p_stdout s) (p_emitted s))
+                  else None           (* blocked reading the child's stdout *)
+          end
+        | OLock r =>
+          if wp_out_locked && p_mutex s then None      (* blocked on the mutex *)
+          else Some (with_worker s w (mkw (w_in wk) (w_pin wk) (w_cdone wk) (w_pout wk) (OWrite r (enc r)))
+                                 (wp_out_locked || p_mutex s) (p_stdout s) (p_emitted s ++ [r]))
+        | OWrite r (b :: bs) =>
+          Some (with_worker s w (mkw (w_in wk) (w_pin wk) (w_cdone wk) (w_pout wk) (OWrite r bs))
+                            (p_mutex s) (p_stdout s ++ [b]) (p_emitted s))
+        | OWrite r [] =>
+          Some (with_worker s w (mkw (w_in wk) (w_pin wk) (w_cdone wk) (w_pout wk) ORead)
+                            (if wp_out_locked then false else p_mutex s) (p_stdout s) (p_emitted s))
+        | ODone => None
+        end
+      | None => None
+      end
+    end.
+
+  (* every thread has returned (main returns from Join when all workers have) *)
+  Definition in_done (wk : worker) : bool := match w_in wk with None => true | Some _ => false end.
+  Definition out_done (wk : worker) : bool := match w_out wk with ODone => true | _ => false end.
+  Definition wdone (wk : worker) : bool := in_done wk && w_cdone wk && out_done wk.
+
+  Definition pterminated (s : pstate) : bool :=
+    forallb is_nil (p_readers s) && Nat.eqb (p_markers s) 0 && forallb wdone (p_workers s).
+End Par.
+
+Definition worker0 : worker := mkw (Some []) [] false [] ORead.
+
+(* [inputs]: per reader thread the records of its input; [jobs] workers; a queue of
+   [cap] slots holding empty strings (the tool uses cap = jobs) *)
+Definition pinit (inputs : list (list rec)) (jobs cap : nat) : pstate :=
+  mkp inputs [] (repeat [] cap) jobs [] (repeat worker0 jobs) false [] [].
 
 (* ---- the front end of the tool: every input (stdin or each -i file) is framed by
    its own WARCReader in a reader thread; an exception there is not caught
@@ -72,10 +175,9 @@ Definition ptool_inputs (read : list Z -> option (list rec)) (streams : list (li
                 | _, _ => None
                 end) (Some []) streams.
 
-(* whole tool under a schedule: None = abnormal end *)
-Definition ptool (read : list Z -> option (list rec)) (streams : list (list Z)) (jobs : nat) (sched : list action)
-  : option pstate :=
+(* the state the threads start from: None = abnormal end *)
+Definition ptool (read : list Z -> option (list rec)) (streams : list (list Z)) (jobs : nat) : option pstate :=
   match ptool_inputs read streams with
-  | Some inputs => Some (prun (pinit inputs jobs) sched)
+  | Some inputs => Some (pinit inputs jobs jobs)
   | None => None
   end.
